@@ -81,7 +81,7 @@ def gen_plans(chk, stride, big):
 # ------------------------------------------------------------------------------------------
 # driver runs with crash / hang recovery
 # ------------------------------------------------------------------------------------------
-def run_resumable(cmd_prefix, n_items, timeout, per_item_key):
+def run_resumable(cmd_prefix, n_items, timeout, per_item_key, max_incidents=400):
     """Runs `cmd_prefix + [skip]`; on crash ({"crash":i} + exit 42), hang ({"hang":i} + exit 43) or any
     other death resumes after the culprit. Returns (lines, incidents {index: what})."""
     lines = []
@@ -119,8 +119,8 @@ def run_resumable(cmd_prefix, n_items, timeout, per_item_key):
             culprit = (last + 1, "crashed" if rc != -9 else "timedout")
         incidents[culprit[0]] = culprit[1]
         skip = culprit[0] + 1
-        if len(incidents) > 400:
-            raise core.ToolError("driver keeps dying")
+        if len(incidents) >= max_incidents:
+            break       # enough evidence; the remaining items are not run
     return lines, incidents
 
 
@@ -136,7 +136,7 @@ def run_stream(chk, bindir, plans, nproc=4):
         wd = os.path.join(chk.work, "sock%d" % k)
         shutil.rmtree(wd, ignore_errors=True)
         os.makedirs(wd)
-        lines, inc = run_resumable([os.path.join(bindir, "netops"), "stream", path, wd], hi - lo, 900, "id")
+        lines, inc = run_resumable([os.path.join(bindir, "netops"), "stream", path, wd], hi - lo, 900, "id", max_incidents=2)
         shutil.rmtree(wd, ignore_errors=True)
         return lo, lines, inc
     conns = [None] * n
@@ -352,22 +352,22 @@ def run_tryops(chk, bindir):
         raise core.ToolError("strace/tryops failed rc=%d: %s" % (p.returncode, p.stderr[-1500:]))
     reports = [json.loads(l) for l in p.stdout.splitlines() if l.startswith("{")]
     windows = {}
-    cur = None
+    cur = None          # (name, tid of the thread that made the begin marker): only ITS system calls count
     for line in open(log, errors="replace"):
-        m = re.match(r"^\d+\s+(\w+)\((.*)", line)
+        m = re.match(r"^(\d+)\s+(\w+)\((.*)", line)
         if not m:
             continue
-        name, rest = m.group(1), m.group(2)
+        tid, name, rest = m.group(1), m.group(2), m.group(3)
         if name == "write" and '"MARK:' in rest:
             mm = re.search(r'MARK:(begin|end):(\w+)', rest)
             if mm and mm.group(1) == "begin":
-                cur = mm.group(2)
-                windows[cur] = []
+                cur = (mm.group(2), tid)
+                windows[cur[0]] = []
             else:
                 cur = None
             continue
-        if cur is not None:
-            windows[cur].append(name)
+        if cur is not None and tid == cur[1]:
+            windows[cur[0]].append(name)
     recs = []
     for r in reports:
         if r["name"] not in windows:
